@@ -68,7 +68,7 @@ def run_shard(shard, tier, seed, wd, res):
         for op in ("zero", "one", "char", "mulgen", "root_of_unity", "consts"):
             s.op("%s.%s" % (fam, op))
         RB = G.repr_boundary(m, width)
-        for v in RB + [rng.getrandbits(width) for _ in range(300)] + [m + rng.getrandbits(rng.randrange(1, 60)) for _ in range(60)] \
+        for v in RB + G.limb_compare_patterns(m, width, rng, 80) + [rng.getrandbits(width) for _ in range(300)] + [m + rng.getrandbits(rng.randrange(1, 60)) for _ in range(60)] \
                 + [m - 1 - rng.getrandbits(rng.randrange(1, 60)) for _ in range(60)]:
             if 0 <= v < (1 << width):
                 s.op(fam + ".from_repr", rp(v))
@@ -107,6 +107,10 @@ def run_shard(shard, tier, seed, wd, res):
                 if a >= b:
                     s.op(rty + ".sub_noborrow", rp(a), rp(b))
                     s.op("T" + rty + ".sub_noborrow", rp(a), rp(b))
+        for a in G.limb_compare_patterns(m, width, rng, 80):
+            s.op(rty + ".cmp", rp(a), rp(m))
+            s.op(rty + "." + ("lt", "gt", "pcmp")[a % 3], rp(a), rp(m))
+            s.op(rty + ".cmp", rp(m), rp(a))
         for cut in (0, 1, 7, 8, width // 8 - 1):
             s.op(rty + ".read_be", V.b(bytes(range(cut))))
             s.op(rty + ".read_le", V.b(bytes(range(cut))))
